@@ -510,6 +510,13 @@ def rare_sign_cases(s):
         xi2 = bytes.fromhex(mc['xi'])
         pk2, sk2 = keypair(s, xi2)
         out.append(('makehint corner q-gamma2', xi2, sk2, pk2, bytes.fromhex(mc['cases'][s]['msg']), bytes.fromhex(mc['ctx']), bytes.fromhex(mc['cases'][s]['rnd'])))
+    # attempts with more than omega hints one of which sits at coefficient 255 (a weight count that skips the last coefficient emits them)
+    ow = rare_inputs().get('overweight_255')
+    if ow and s in ow['cases']:
+        xi3 = bytes.fromhex(ow['xi'])
+        pk3, sk3 = keypair(s, xi3)
+        for n in ow['cases'][s]:
+            out.append((f'over-weight attempt with a hint at coefficient 255 (rnd counter {n})', xi3, sk3, pk3, bytes.fromhex(ow['msg']), b'', n.to_bytes(4, 'little') + bytes(28)))
     return out
 
 
@@ -543,7 +550,9 @@ def zero_sum_seeds(s):
 
 
 def rare_keygen_seeds(s):
-    """ML-DSA-65 seeds for which one RejBoundedPoly call needs more than two SHAKE256 blocks"""
-    if s != '65':
-        return []
-    return [bytes.fromhex(e['xi']) for e in rare_inputs()['keygen65_long_rejection']]
+    """seeds that hit rare sampler events: ML-DSA-65 seeds for which one RejBoundedPoly call needs more than two SHAKE256 blocks; special RejNTTPoly candidates"""
+    # every set: seeds whose ExpandA meets a rare 23-bit candidate - an accepted 0 or q - 1, a rejected q or 2^23 - 1 (checks/mk_corpus_expa.py)
+    out = [bytes.fromhex(x) for xs in rare_inputs().get('expand_a_special', {}).get('cases', {}).get(s, {}).values() for x in xs]
+    if s == '65':
+        out += [bytes.fromhex(e['xi']) for e in rare_inputs()['keygen65_long_rejection']]
+    return out
